@@ -76,6 +76,27 @@ def iter_direction(prog):
     return ("rev" if any(c.endswith("Iterator::rev") for c in calls) else "fwd"), T.show(r)[:120]
 
 
+def _unwrap_key(key):
+    """Looks through single-field wrapper structs around the sort key; returns (inner key, number of cmp::Reverse wrappers)."""
+    nrev = 0
+    while key[0] == "agg" and key[1].startswith("adt:") and len(key[2]) == 1 and not key[1].endswith("|enum"):
+        if "cmp::Reverse" in key[1]:
+            nrev += 1
+        key = key[2][0]
+    return key, nrev
+
+
+def key_reversed(prog):
+    """True if search_best wraps the rating in an odd number of cmp::Reverse: the buffer's order is then the inverse of the rating's."""
+    b = lib.need_body(prog, SEARCH_BEST)
+    tm = T.Terms(b, prog)
+    for bi, t in lib.find_calls(b, ADD):
+        v = tm.operand(t["args"][1])
+        if v[0] == "agg" and v[1].startswith("adt:llfree::util::OrdBy") and len(v[2]) == 2:
+            return _unwrap_key(v[2][0])[1] % 2 == 1
+    return False
+
+
 def r_candidate_key(rep, prog):
     rule = "R-CANDIDATE-KEY"
     rep.rule(rule, "search_best caches OrdBy((rate(tree.class(), tree.free()), ..), i) with tree = entries[i]: key and value describe the same tree")
@@ -90,6 +111,7 @@ def r_candidate_key(rep, prog):
             rep.violation(rule, "search_best|cached-element", "cached element is not OrdBy(key, tree): " + T.show(v)[:120], t["span"])
             continue
         key, val = v[2]
+        key, _ = _unwrap_key(key)
         k0 = key[2][0] if key[0] == "agg" and key[1] == "tuple" and key[2] else key
         is_rate = k0[0] == "call" and k0[1].endswith("ops::function::Fn::call") and T.canon(T.strip_refs(k0[2][0])) == ("p", "rate")
         rep.check(is_rate, rule, "search_best|key-is-rating", "the sort key starts with the value returned by rate(..)",
@@ -111,6 +133,9 @@ def r_best_first(rep, prog):
     rep.rule(rule, "storage direction of SortedBuffer::add and consumption direction in search_best agree (greatest key first); every cached "
                    "candidate is passed to access until one gives a non-Memory result")
     sd, sdesc, sspan = storage_direction(prog)
+    if sd and key_reversed(prog):
+        sd = {"asc": "desc", "desc": "asc"}[sd]
+        sdesc += ", key wrapped in cmp::Reverse: descending by rating"
     rep.saw(ADD, ITER)
     if sd is None:
         rep.note("R-BEST-FIRST direction agreement undecided: cannot read the storage order of SortedBuffer::add (%s)" % sdesc)
@@ -296,7 +321,28 @@ def r_evict_worst(rep, prog, sd):
                 decided += 1
                 rep.check(sd != "desc", rule, "add|full-evicts-worst", "full: rotate [..pos] left, store at pos-1 (element 0, the smallest, is given up)",
                           "a descending buffer gives up element 0, its greatest element", rspan)
-                rep.check(full is True or full is None and False or full is True, rule, "add|evict-only-when-full",
+                # ... and for every value that beats the current worst (pos > 0), nothing stricter
+                extra = []
+                for s2, d2 in lib.controlling_edges(b, sb):
+                    c2 = tm.operand(b.term(s2)["discr"])
+                    pol2 = lib.bool_edge_polarity(b, s2, d2)
+                    cmp2 = lib.normalize_cmp(c2) if c2[0] == "bin" else None
+                    if not cmp2 or pol2 is None:
+                        extra.append(T.show(c2)[:60])
+                        continue
+                    l2, r2, h2 = cmp2 if pol2 else lib.negate_rel(cmp2)
+                    if r2 in ("gt", "ge"):
+                        l2, h2, r2 = h2, l2, {"gt": "lt", "ge": "le"}[r2]
+                    is_len_guard = (T.strip_casts(h2)[0] == "k" or T.strip_casts(l2)[0] == "k") and (lin_eq(T.linear(l2), L) or lin_eq(T.linear(h2), L))
+                    pos_gt0 = lin_eq(T.linear(h2), idx and T._lin_add(idx, ({}, 1), 1)) and (
+                        (r2 == "lt" and T.const_val(l2) == 0) or (r2 == "le" and T.const_val(l2) == 1))
+                    ne0 = r2 == "ne" and 0 in (T.const_val(l2), T.const_val(h2))
+                    if not (is_len_guard or pos_gt0 or ne0):
+                        extra.append("%s %s %s" % (T.show(l2)[:40], r2, T.show(h2)[:40]))
+                rep.check(not extra, rule, "add|full-keeps-better", "a full buffer takes every value that beats its smallest element (pos > 0)",
+                          "in a full buffer the new value is only stored under the additional condition `%s`: a candidate that is better "
+                          "than the worst remembered one is dropped" % "; ".join(extra), rspan)
+                rep.check(full is True, rule, "add|evict-only-when-full",
                           "eviction happens only when the buffer is full",
                           "the evicting rotation is not restricted to a full buffer (len < N is not false on the way to it)", rspan)
     if decided == 0:
@@ -331,9 +377,10 @@ def p_sorted_buffer_guards(rep, prog, rule="P-SORTED-BUFFER"):
                 lhs, rhs, rel = rhs, lhs, {"gt": "lt", "ge": "le"}[rel]
             if rel == "lt" and T.linear(lhs) == L and T.strip_casts(rhs)[0] == "k":
                 out.add("len<N")
-            if rel == "lt" and T.const_val(lhs) == 0:
+            cv = T.const_val(lhs)
+            if rel == "lt" and cv is not None and cv >= 0:
                 out.add(("pos>0", repr(T.linear(rhs))))
-            if rel == "le" and T.const_val(lhs) == 1:
+            if rel == "le" and cv is not None and cv >= 1:
                 out.add(("pos>0", repr(T.linear(rhs))))
         return out
     # pos: unwrap_or(position(iter(index(buffer, ..len)), _), len)
@@ -389,4 +436,6 @@ def run(rep, programs):
     r_candidate_key(rep, prog)
     r_best_first(rep, prog)
     sd, _, _ = storage_direction(prog)
+    if sd and key_reversed(prog):
+        sd = {"asc": "desc", "desc": "asc"}[sd]
     r_evict_worst(rep, prog, sd)
